@@ -567,7 +567,35 @@ func isWgAdd(s *ir.Step) bool  { return isMethodCall(s, "(*sync.WaitGroup).Add")
 func isSleep(s *ir.Step) bool  { return isMethodCall(s, "time.Sleep") }
 func isTimeAfter(t *ir.Term) bool {
 	_, callee, _, ok := callParts(t)
-	return ok && callee != nil && callee.Op == "fn" && callee.Fn != nil && callee.Fn.String() == "time.After"
+	return ok && callee != nil && callee.Op == "fn" && callee.Fn != nil && (callee.Fn.String() == "time.After" || callee.Fn.String() == "time.NewTimer")
+}
+
+// timerCall: ch is the channel of a one-shot timer - time.After(d) itself or the C field of time.NewTimer(d);
+// returns the arming call's result term (nil otherwise).
+func timerCall(ch *ir.Term) *ir.Term {
+	if ch == nil {
+		return nil
+	}
+	if isTimeAfter(ch) {
+		if _, callee, _, _ := callParts(ch); callee.Fn.String() == "time.After" {
+			return ch
+		}
+		return nil
+	}
+	x := ch
+	if x.Op == "load" && len(x.Args) == 1 && x.Args[0].Op == "faddr" && x.Args[0].Aux == "C" && len(x.Args[0].Args) == 1 {
+		x = x.Args[0].Args[0]
+	} else if x.Op == "field" && x.Aux == "C" && len(x.Args) == 1 {
+		x = x.Args[0]
+	} else {
+		return nil
+	}
+	if isTimeAfter(x) {
+		if _, callee, _, _ := callParts(x); callee.Fn.String() == "time.NewTimer" {
+			return x
+		}
+	}
+	return nil
 }
 
 // catchRole: an interface method with signature (context.Context, error, chan<- error) bool.
